@@ -69,6 +69,8 @@ pub struct GenomeOpts {
     pub revcomp_records: bool,
     /// a run of k+2 A's: the split k-mer whose packed value is 0
     pub poly_a: bool,
+    /// paralogs: a stretch of 2k-3..3k bases copied elsewhere, the copy differing in its middle base
+    pub long_repeats: bool,
 }
 impl GenomeOpts {
     pub fn swarm(rng: &mut Rng, k: usize) -> GenomeOpts {
@@ -84,6 +86,7 @@ impl GenomeOpts {
             palindromes: rng.chance(35),
             revcomp_records: rng.chance(40),
             poly_a: rng.chance(10),
+            long_repeats: false,
         }
     }
     pub fn plain(len: usize) -> GenomeOpts {
@@ -97,6 +100,7 @@ impl GenomeOpts {
             palindromes: false,
             revcomp_records: false,
             poly_a: false,
+            long_repeats: false,
         }
     }
 }
@@ -151,6 +155,20 @@ pub fn gen_samples(rng: &mut Rng, n: usize, k: usize, o: &GenomeOpts, prefix: &s
             }
         }
     }
+    if o.long_repeats && o.len > 8 * k {
+        for _ in 0..rng.range(1, 2) {
+            let l = rng.range(2 * k - 3, 3 * k);
+            let from = rng.range(0, o.len - l - 1);
+            let to = rng.range(0, o.len - l - 1);
+            if to + l <= from || from + l <= to {
+                let mut w: Vec<u8> = anc[from..from + l].to_vec();
+                if rng.chance(70) {
+                    w[l / 2] = other_base(rng, w[l / 2]);
+                }
+                anc[to..to + l].copy_from_slice(&w);
+            }
+        }
+    }
     let sites: Vec<usize> = (0..o.snp_sites).map(|_| rng.below(o.len)).collect();
     let mut out = vec![];
     for i in 0..n {
@@ -194,6 +212,10 @@ pub fn gen_samples(rng: &mut Rng, n: usize, k: usize, o: &GenomeOpts, prefix: &s
             c += 1;
         }
         records.push((format!("c{c}"), rest));
+        if o.long_repeats && records.len() > 1 && rng.chance(35) {
+            let gone = rng.below(records.len());
+            records.remove(gone);
+        }
         if o.revcomp_records {
             for r in records.iter_mut() {
                 if rng.chance(40) {
